@@ -76,6 +76,27 @@ Proof.
 Qed.
 Print Assumptions C05_redecode_with_maps.
 
+(* the same with the reflection COMPUTED (NormMaps.reflect: stored or reversed entry order, nesting depth
+   bounded by fuel - cyclic values have no finite pickle).  This instance is what the run executes:
+   the extracted reflect and norm2 predict the implementation's second Decode (model command reenc2). *)
+Theorem C05_redecode_with_maps_computed : forall cfg c st0 inp x st1 rest0 fuel ro r cvl st rest,
+  state_ok cfg st0 -> load_ok cfg ->
+  decode cfg st0 inp = ((Ok x, st1), rest0) ->
+  c_strict cfg = e_strict c -> (0 <= e_proto c <= 5)%Z ->
+  reflect fuel ro (d_heap st1) x = Some r ->
+  norm2 c (c_pydict cfg) TRef r = Some cvl ->
+  heap_bound st ->
+  snd (run_w (encode c r) None) = EOk /\
+  exists x' st',
+    decode (dcfg_of c (c_pydict cfg)) st (output (encode c r) ++ rest) = ((Ok x', st'), rest) /\
+    content (d_heap st') x' cvl /\
+    contentp (d_heap st1) x cvl.
+Proof.
+  intros cfg c st0 inp x st1 rest0 fuel ro r cvl st rest H0 LOK D Hs Hp R Hn Hb.
+  eapply C05_redecode_with_maps; try eassumption. eapply reflect_sound. exact R.
+Qed.
+Print Assumptions C05_redecode_with_maps_computed.
+
 (* the heap invariant the theorem rests on, for every reachable decoder state: no object ever holds
    two equal keys (Go == in a builtin map; Python == in a Dict, whose keys are all hashable) *)
 Theorem C05_heap_keys_distinct : forall cfg st inp r st' rest id o,
@@ -98,9 +119,7 @@ Example C05_maps_nonvacuous :
     exists cvl, norm2 (Build_econfig 2 false (fun _ => false) (fun _ => nil)) false TRef ex2_r = Some cvl.
 Proof.
   eexists. eexists. split; [vm_compute; reflexivity|]. split.
-  - eapply rf_map; [vm_compute; reflexivity|apply perm_swap|].
-    constructor; [split; apply rf_leaf; reflexivity|].
-    constructor; [split; apply rf_leaf; reflexivity|constructor].
+  - apply (reflect_sound 5 true). vm_compute. reflexivity.
   - eexists. vm_compute. reflexivity.
 Qed.
 
